@@ -68,7 +68,9 @@ Proof. exact generate_count_thm. Qed.
 Print Assumptions C18_count.
 
 (* (weights non-negative and not all zero: otherwise the normalised weights are
-   NaN in the code and the choice contract says nothing)
+   NaN in the code and the choice contract says nothing; positive weight
+   denominators = half bandwidths, which every constructed table has: the
+   sampler's probabilities are c_wn * (lcm of the denominators / c_wd))
    every returned event is the relocated image of a candidate of its own
    dataset that has positive weight (zero-weight sources / datasets / MC events
    are never injected) and satisfies all validity ranges of that dataset *)
@@ -76,7 +78,7 @@ Theorem C18_valid : forall (rng : Type) (choice : rng -> list Z -> nat -> list n
   (post : Z -> Z -> Z -> Z -> list Z),
   choice_contract choice ->
   forall fuel g tbl dss n_signal n out g',
-  Forall (fun c => 0 <= c_wn c) tbl -> Exists (fun c => 0 < c_wn c) tbl ->
+  Forall (fun c => 0 <= c_wn c) tbl -> Exists (fun c => 0 < c_wn c) tbl -> Forall (fun c => 0 < c_wd c) tbl ->
   generate rng choice post fuel g tbl dss n_signal = Ok (n, out, g') ->
   forall ds evs ev, In (ds, evs) out -> In ev evs ->
   exists d c, py_get dss ds = Ok d /\ In c tbl /\ c_ds c = ds /\ 0 < c_wn c
@@ -125,6 +127,13 @@ Theorem C18_additive : forall (erf : R -> R) (a b refN : R) (groups : list (R * 
 Proof. exact mu2flux_additive. Qed.
 Print Assumptions C18_additive.
 
+(* the source relocates the drawn events first and masks the relocated events,
+   in the redraw loop and in generate_signal_events (statement order read off
+   the source; the model's redraw / gen_group do the same) — seeded C18-1 *)
+Theorem C18_order_kernel : redraw_relocate_before_mask = true /\ gen_relocate_before_mask = true.
+Proof. exact K_relocate_before_mask. Qed.
+Print Assumptions C18_order_kernel.
+
 (* ==== deepening: the path a user calls, as a whole ==== *)
 
 (* per-dataset counts: the keys of the result are exactly the datasets of the
@@ -136,7 +145,7 @@ Theorem C18_per_dataset : forall (rng : Type) (choice : rng -> list Z -> nat -> 
   forall fuel g tbl dss n_signal n out g',
   generate rng choice post fuel g tbl dss n_signal = Ok (n, out, g') ->
   exists meta,
-    lookup tbl (fst (choice g (map c_wn tbl) (Z.to_nat n_signal))) = Ok meta
+    lookup tbl (fst (choice g (samp_w tbl) (Z.to_nat n_signal))) = Ok meta
     /\ map fst out = zuniq (map c_ds meta)
     /\ (forall ds evs, In (ds, evs) out -> zlen evs = zlen (filter (fun c => c_ds c =? ds) meta)).
 Proof. exact generate_per_dataset_thm. Qed.
@@ -166,9 +175,9 @@ Print Assumptions C18_relocation.
    the one of the current sources and the sampler holds exactly its weights *)
 Theorem C18_machine_invariant : forall (rng : Type) (choice : rng -> list Z -> nat -> list nat * rng)
   (post : Z -> Z -> Z -> Z -> list Z) (pois : rng -> Z -> Z * rng) fuel ops st g st' g' outs,
-  (construct (g_shgs st) (g_dss st) = Ok (g_tbl st) /\ g_p st = map c_wn (g_tbl st)) ->
+  (construct (g_shgs st) (g_dss st) = Ok (g_tbl st) /\ g_p st = samp_w (g_tbl st)) ->
   mc_run rng choice post pois fuel st g ops = Ok (st', g', outs) ->
-  (construct (g_shgs st') (g_dss st') = Ok (g_tbl st') /\ g_p st' = map c_wn (g_tbl st'))
+  (construct (g_shgs st') (g_dss st') = Ok (g_tbl st') /\ g_p st' = samp_w (g_tbl st'))
   /\ g_dss st' = g_dss st.
 Proof. exact mc_run_ok. Qed.
 Print Assumptions C18_machine_invariant.
@@ -311,12 +320,12 @@ Example C18_machine_nonvacuous :
     /\ mc_run _ stream_choice (fun ds shg src ev => [src; ev]) (fun g m => (m, g)) 3 st0 [[0%nat]; [0%nat; 0%nat]]
               [OpGenerate false 1; OpChange [h2]; OpGenerate true 2] = Ok (st, [], outs)
     /\ outs = [(1, [(0, [[0; 1]])]); (2, [(0, [[0; 2]; [0; 2]])])]
-    /\ map c_wn (g_tbl st) = [1; 0] /\ g_p st = [1; 0]
+    /\ map c_wn (g_tbl st) = [1; 0] /\ g_p st = [1; 0] /\ mc_ok st
     /\ inputs_nonneg [h2] dss /\ Exists (fun c => 0 < c_wn c) (g_tbl st).
 Proof.
   cbv zeta. eexists. eexists. eexists. split; [vm_compute; reflexivity|].
   split; [vm_compute; reflexivity|]. split; [reflexivity|]. split; [vm_compute; reflexivity|].
-  split; [vm_compute; reflexivity|]. split.
+  split; [vm_compute; reflexivity|]. split; [split; vm_compute; reflexivity|]. split.
   - unfold inputs_nonneg. split; repeat constructor; cbn; try lia.
     intros en. unfold assocz. destruct (en =? 1); lia.
   - left. vm_compute. reflexivity.
